@@ -666,6 +666,10 @@ class RepeatedlyMeasuredValue(MeasuredValue):
         if cov is None and isinstance(other, RepeatedlyMeasuredValue):
             try:
                 cov = utils.calculate_covariance(self.raw_data, other.raw_data)
+                # a sample covariance never exceeds the product of the two sample standard
+                # deviations (Cauchy-Schwarz), only rounding can put it outside
+                bound = self.std * other.std
+                cov = min(max(cov, -bound), bound)
             except ValueError:
                 cov = None
 
@@ -682,7 +686,9 @@ class RepeatedlyMeasuredValue(MeasuredValue):
         if corr is None and isinstance(other, RepeatedlyMeasuredValue):
             try:
                 cov = utils.calculate_covariance(self.raw_data, other.raw_data)
-                corr = cov / (self.std * other.std)
+                # a sample correlation is within [-1, 1] (Cauchy-Schwarz), only rounding
+                # can put the quotient outside
+                corr = min(max(cov / (self.std * other.std), -1.0), 1.0)
             except ValueError:
                 corr = None
 
